@@ -138,6 +138,22 @@ def run_case(case):
                         cls.add('exact_boundary')
                     if t < first or t < lastobs or filled:
                         nt += 1
+            if len(syms) == 2:
+                # two single-symbol sources behind one handler: each symbol is answered by the source that has it
+                names = list(syms)
+                split = [q.CSVDailyBarDataSource(path, q.Equity, adjust_prices=adjust, csv_symbols=[n]) for n in names]
+                dh2 = q.BacktestDataHandler(None, data_sources=split)
+                for name in names:
+                    obs = observations(syms[name], adjust)
+                    for t in queries[:8]:
+                        exp = lookup(obs, t)[0]
+                        for k, g in (('bid', dh2.get_asset_latest_bid_price(t, 'EQ:' + name)),
+                                     ('ask', dh2.get_asset_latest_ask_price(t, 'EQ:' + name)),
+                                     ('mid', dh2.get_asset_latest_mid_price(t, 'EQ:' + name))):
+                            if not same(float(g), exp):
+                                raise Violation('handler over two sources: %s(%s, EQ:%s) adjust=%s returned %r; '
+                                                'point-in-time answer is %r' % (k, t, name, adjust, g, exp))
+                cls.add('two_sources_handler')
             for t in queries[:3]:
                 u = dh.get_asset_latest_bid_price(t, 'EQ:NOPE')
                 m_ = dh.get_asset_latest_mid_price(t, 'EQ:NOPE')
